@@ -374,6 +374,13 @@ def h_rebuild(g):
 
 
 def h_random(g, rng, nops):
+    if rng.random() < 0.4:
+        # a Joliet directory of 2 or 3 blocks (162-byte records: 12 per block), some records shared with ISO9660
+        big = '/' + jname(rng, rng.choice([3, 9]))
+        if g.add_dir('/BIG' if rng.random() < 0.5 else None, big):
+            for k in range(rng.choice([13, 20, 25, 30])):
+                ip = '/BIG/' + ifile(k) if '/BIG' in g.ns['i'] and k % 3 == 0 else None
+                g.add_file(rng.choice(LENS), ip, big + '/' + jfix(k, rng.choice([60, 64])))
     for _ in range(nops):
         r = rng.random()
         idirs = [p for p, v in g.ns['i'].items() if v == 'd']
